@@ -16,6 +16,7 @@ CHECKS = {
  "C10": ("Real BusReader/BusWriter and bytes.Reader on a symbolic image with a fully symbolic bus address and short read/write sequences; counts, errors, delivered bytes and the whole image compared with the contract applied to the harness' copy.", TRUST + "The unreachable last byte of each bank is a listed open finding (pinned by a baseline test).", "§6 C10"),
  "C11": ("The real CreateEmulator executed by the engine; one read and one write at every bus address (per bank, offset symbolic) with symbolic ROM/WRAM/SRAM contents; the array reached is observed extensionally and compared with lorom.BusAddressToPak.", TRUST, "§6 C11"),
  "C12": ("Step lemma and callback obligations per opcode over an arbitrary state; the real RunUntil loop run symbolically over short programs with symbolic target and budget.", TRUST + "RunUntil for programs beyond the unrolling bound rests on the Step lemma (cycles >= 1), argued not solver-checked.", "§6 C12"),
+ "C18": ("Decided through the sufficient condition the statement itself gives (no mutable state outside caller-owned objects): the engine's write-set monitor checks every store on every feasible path of the other properties' jobs against the objects reachable from package-level variables, and a syntactic scan covers every repository function. Thread interleavings are not explored.", TRUST + "Go memory model: goroutines touching disjoint memory cannot influence each other.", "§6 C18"),
  "C19": ("Every instruction method and data blocks at capacities from ample down to 3 bytes short, refusal observed around the real call; dry-run twin compared after every call of short sequences.", TRUST + "Capacities 0..4 (thorough 0..6).", "§6 C19"),
  "C13": ("Probe memories behind the real Bus; routing after up to three Attach calls over overlapping/adjacent/nested ranges checked at a symbolic address; misaligned Attach with symbolic bounds; EaDump for every start/end alignment over up to 4-5 segments.", TRUST + "Bounded: 8 candidate ranges in a 512-byte window, <= 3 attaches.", "§6 C13"),
  "C14": ("One trace line per opcode x width setting x interpreter from an arbitrary state, parsed without branching on symbolic characters and compared with the pre-state and the opcode matrix; the disassembler call and RunUntil with/without Logger leave CPU and memory identical.", TRUST + "Rendering syntax is not imposed; required content only.", "§6 C14"),
@@ -35,7 +36,7 @@ def main():
             "evidence_file": f"/verif/evidence/{pid}.json",
             "replay_cmd_template": "./bin/vcheck replay {path}",
             "engine": "gosym",
-            "level_claimed": {"category": "model_checking", "text": text, "design_ref": "DESIGN.md " + ref},
+            "level_claimed": {"category": "other" if pid == "C18" else "model_checking", "text": text, "design_ref": "DESIGN.md " + ref},
             "level_note": note,
             "technique": TECH,
         })
